@@ -96,3 +96,14 @@ CHECKS["C09"] = {
     "note": ("Not decided: that two respellings produce the same AST (C02/C04 behaviour), hence equal verdicts for respellings; value equality canonical == emit(parse(x)). "
              "Receivers are typed only locally; an AST object reached through an untyped container of another class would not be recognised."),
 }
+
+CHECKS["C18"] = {
+    "technique": "static analysis: dominance of is_absent guards over every emission call site, shape rules on the tri-state dispatch (DELETE test / wrap / key equality) via control dependence, effect analysis (frame) and sibling agreement of the CLI",
+    "text": ("Decides: every emit_value/emit_assignment call in the emitter on an element of children/items/pairs/meta is control-dependent on is_absent(...) being false (emit_assignment's own "
+             "parameter is discharged at every call site); emit_value refuses Absent first and returns the constant \"null\" exactly under `value is None`; emit_meta emits no empty header; in "
+             "_apply_changes/_apply_mutations every stored request value is wrapped by _normalize_value_for_ast on a path where _is_delete_sentinel was false, every removal is under the "
+             "sentinel and keyed by the request key, META{...} merges, `.value` is stored only where node.key == request key and the only append is Assignment(key=request key); "
+             "_normalize_value_for_ast is identity on scalars/None/zones and element-wise on lists/dicts; the CLI delegates to the same implementation (it did not: fixed in /repo)."),
+    "note": ("Not decided: that untouched nodes re-emit to the same lines (C01 behaviour) and that null, \"\" and [] are told apart by the reader (values). Duplicate keys: only the first match is "
+             "updated, which the property allows ('sets exactly that value')."),
+}
